@@ -185,6 +185,12 @@ def check_colfile_text(case, rec=None):
     cf = columnfile.colfile_from_dict(arrays)
     for k, v in pars.items():
         cf.parameters.set(k, v)
+    nr_ = len(next(iter(arrays.values()))) if arrays else 0
+    if nr_ >= 1 and len(titles) % 3 == 1:
+        # what is written is a selection of rows (here: all of them) taken from a larger table, by mask or by index
+        ok, cf = guard(cf.copyrows, np.ones(nr_, bool) if nr_ % 2 else np.arange(nr_))
+        if not ok:
+            return [exc_failure("copyrows", cf)]
     f1, f2 = tmpfile("c18_a.flt"), tmpfile("c18_b.flt")
     rm(f1, f2)
     fails = []
